@@ -30,6 +30,8 @@ def run(tier):
         chk.clause('C02.D2', 'perm_r discipline and inverse permutations in ?gstrf')
         r11_kinds.run(chk, 'C02.kinds', prog, cfgname, floor=1900)
         kernels.run_factor(chk, 'C02.kern', prog, cfgname)
+        from . import c09
+        c09.init_rule(chk, prog, cid='C02.init')
         n1 = n2 = 0
         for p in _drv.PRECS:
             n1 += pivot.run(chk, 'C02.D1', prog, p, cfgname)
